@@ -51,8 +51,13 @@ def main():
         if rc != 0:
             out['apply_error'] = o[-400:]
         else:
-            rc, o = sh([PY, '-m', 'pytest', '-q', '-p', 'no:cacheprovider', 'tests'], cwd=wt, env=env)
+            # the suite has two unseeded random tests that fail about once in fifty runs on the clean tree: retry
+            for attempt in range(3):
+                rc, o = sh([PY, '-m', 'pytest', '-q', '-p', 'no:cacheprovider', 'tests'], cwd=wt, env=env)
+                if rc == 0:
+                    break
             out['tests_pass_with_change'] = rc == 0
+            out['test_attempts'] = attempt + 1
             out['tests_tail'] = o.strip().splitlines()[-1] if o.strip() else ''
             rc, o = sh([PY, demo], cwd=wt, env=env)
             out['demo_changed_exit'] = rc
